@@ -83,10 +83,10 @@ theorem procSetattr_fbig (s : St) (c : Ctx) (args : Bytes) (h : Nat) (r1 r2 r3 :
   have hcfg : s1.cfg = s.cfg := by have := getAttr_cfg s c.now n; rw [hpre] at this; exact this
   refine ⟨?_, by have := getAttr_fs s c.now n; rw [hpre] at this; exact this⟩
   unfold procSetattr
-  simp only [hro, Bool.false_eq_true, if_false, hfh, hsa, hguard, decide_true, Bool.true_or, not_true_eq_false, hmode, hn, hpre,
+  simp only [hro, Bool.false_eq_true, if_false, hfh, hsa, hguard, guardDecodes, decide_true, Bool.true_or, not_true_eq_false, hmode, hn, hpre,
     ne_eq, hsz]
   have h1 : ¬ sz > maxInt64 := by omega
-  simp [h1, hcfg, hbig]
+  simp [setattrSize, h1, hcfg, hbig]
 
 end Server
 end Absnfs
